@@ -28,8 +28,8 @@ class Point2D(object):
         isxfrac = isinstance(x, (int, fractions.Fraction))
         isyfrac = isinstance(y, (int, fractions.Fraction))
         if isxfrac and isyfrac:
-            self._x = fractions.Fraction(x).limit_denominator(1e9)
-            self._y = fractions.Fraction(y).limit_denominator(1e9)
+            self._x = fractions.Fraction(x).limit_denominator(10**9)
+            self._y = fractions.Fraction(y).limit_denominator(10**9)
 
     def inner(self, other: Point2D) -> float:
         """
